@@ -18,11 +18,18 @@ CONSTANTS NExports
 Kinds == {"str", "num", "obj", "regex", "class", "date", "arrow", "tpl"}
 Styles == {"namespace", "named", "star", "nsobject"}
 
-VARIABLES kinds, style
-gvars == <<kinds, style>>
-GInit == kinds \in [1..NExports -> Kinds] /\ style \in Styles
+VARIABLES kinds, style, shape, width
+gvars == <<kinds, style, shape, width>>
+GInit == kinds \in [1..NExports -> Kinds] /\ style \in Styles /\ shape = "none" /\ width = 0
 GNext == UNCHANGED gvars
 GSpec == GInit /\ [][GNext]_gvars
+
+\* Part 1b: "wide" type-level projects - N alternatives wherever the compiler picks one or numbers things in iteration order:
+\* several candidate discriminator keys, many properties / union members / aliases / requested parsers / enum members /
+\* generic instantiations.  A state is (shape, width); lib/p_determinism.py renders it.
+Shapes == {"multidisc", "manyprops", "manyaliases", "manyroots", "manyenums", "manygenerics", "nesteddisc", "intersections"}
+WInit == shape \in Shapes /\ width \in 2..(NExports + 3) /\ kinds = <<>> /\ style = "none"
+WSpec == WInit /\ [][UNCHANGED gvars]_gvars
 
 \* ------------------------------------------------------------------ the property as a monitor over observations
 \* obs: sequence of [proj, order, pid, digest]
